@@ -8,6 +8,7 @@ import (
 	"encoding/binary"
 	"fmt"
 	"io"
+	"io/ioutil"
 )
 
 // SESS_INIT is the Message Header code for a Session Initialization Message.
@@ -103,9 +104,8 @@ func (si *SessionInitMessage) Unmarshal(r io.Reader) error {
 	if err := binary.Read(r, binary.BigEndian, &sessionExtsLen); err != nil {
 		return err
 	} else if sessionExtsLen > 0 {
-		sessionExtsBuff := make([]byte, sessionExtsLen)
-
-		if _, err := io.ReadFull(r, sessionExtsBuff); err != nil {
+		// The unsupported extension items are skipped; their announced length must not size an allocation.
+		if _, err := io.CopyN(ioutil.Discard, r, int64(sessionExtsLen)); err != nil {
 			return err
 		}
 	}
